@@ -346,6 +346,21 @@ theorem list_child_sound (glob : Glob) (pats : List Pattern) (hv : ValidPats glo
   · intro p hp hm
     exact (specMatch_iff _ _ _).mpr (matchSpec_upward ext hs ((specMatch_iff _ _ _).mp hm))
 
+/-- when `ListWithChild` reports a match it also reports "children may match" -/
+theorem list_matched_child (glob : Glob) (pats : List Pattern) (hv : ValidPats glob pats)
+    (s : List Str) (h : specList glob pats s = true) : specListChild glob true pats s = true := by
+  unfold specListChild
+  have hfst : (listFold (fun p => specMatch glob p.parts s)
+      (fun p => if true = true then childB glob p.parts s else true) pats (false, false)).1 = true := by
+    rw [listFold_fst]; exact h
+  refine listFold_matched_child _ _ pats ?_ (false, false) (by simp) hfst
+  intro p hp hm
+  have hmg : matchGo glob p.parts (s ++ []) = .ok true := by
+    rw [List.append_nil]
+    exact matchGo_true_of_spec hv.g1 (hv.noErr p hp) ((specMatch_iff _ _ _).mp hm)
+  have := child_sound glob hv.g1 p.parts (hv.noErr p hp) (hv.parts p hp) s [] hmg
+  simp [childB, this]
+
 /-- without negated patterns a match of the list on a directory covers everything inside it -/
 theorem list_upward (glob : Glob) (pats : List Pattern) (hnoneg : ∀ p ∈ pats, p.negated = false)
     (s ext : List Str) (hs : s ≠ []) (h : specList glob pats s = true) :
